@@ -27,6 +27,8 @@ pub assume_specification<T> [<[T]>::reverse] (s: &mut [T])
     ensures final(s)@ == old(s)@.reverse();
 
 // ---- assumed specifications of std items that vstd does not cover (listed in evidence) ----
+pub assume_specification<'a, T: Copy> [std::option::Option::<&'a T>::copied] (o: std::option::Option<&'a T>) -> (r: std::option::Option<T>)
+    ensures r == (match o { Some(x) => Some(*x), None => None::<T> });
 pub assume_specification<T: std::cmp::Ord>[std::cmp::max](a: T, b: T) -> (r: T)
     ensures T::obeys_cmp_spec() ==> r == (if a.cmp_spec(&b) == Ordering::Greater { a } else { b });
 pub assume_specification<T: std::cmp::Ord>[std::cmp::min](a: T, b: T) -> (r: T)
